@@ -188,18 +188,19 @@ Qed.
 Lemma zip_b_complete q : ~ F_zip q -> zip_b q = true.
 Proof.
   intros Hn. unfold zip_b. apply forallb_forall. intros f Hf. destruct (rspec f) as [m|] eqn:Es; [|reflexivity].
-  apply forallb_forall. intros x _.
-  set (dims := flat_map _ (carriers m x)).
+  apply forallb_forall. intros x Hx.
+  set (dims := flat_map _ (ins m)).
   destruct dims as [|d rest] eqn:Ed; [reflexivity|]. apply forallb_forall. intros d' Hd'. apply Nat.eqb_eq.
-  assert (G : forall z, In z dims -> exists a p, In (a, p) (carriers m x) /\ is_root (q_funcs q) (aname a) = true
-                                             /\ dim_of q a p = Some z).
-  { intros z Hz. unfold dims in Hz. apply in_flat_map in Hz as [[a p] [Hc Hz]]. cbn [fst snd] in Hz.
+  assert (G : forall z, In z dims -> exists a p, In a (ins m) /\ index_of x (axes a) = Some p
+                                             /\ is_root (q_funcs q) (aname a) = true /\ dim_of q a p = Some z).
+  { intros z Hz. unfold dims in Hz. apply in_flat_map in Hz as [a [Ha Hz]].
     destruct (is_root (q_funcs q) (aname a)) eqn:Er; [|destruct Hz].
-    destruct (dim_of q a p) as [z'|] eqn:Edim; [|destruct Hz]. destruct Hz as [<-|[]]. eauto. }
-  destruct (G d) as [a [pa [Hca [Hra Hda]]]]; [rewrite Ed; now left|].
-  destruct (G d') as [b [pb [Hcb [Hrb Hdb]]]]; [rewrite Ed; now right|].
+    destruct (index_of x (axes a)) as [p|] eqn:Ep; [|destruct Hz].
+    destruct (dim_of q a p) as [z'|] eqn:Edim; [|destruct Hz]. destruct Hz as [<-|[]]. eauto 10. }
+  destruct (G d) as [a [pa [Ha [Hpa [Hra Hda]]]]]; [rewrite Ed; now left|].
+  destruct (G d') as [b [pb [Hb [Hpb [Hrb Hdb]]]]]; [rewrite Ed; now right|].
   destruct (Nat.eq_dec d d') as [E|E]; [exact E|]. exfalso. apply Hn.
-  exists f, m, x, a, pa, b, pb, d, d'. auto 12.
+  exists f, m, x, a, pa, b, pb, d, d'. auto 15.
 Qed.
 
 Lemma wfm_b_complete q : WellFormedM q -> wfm_b q = true.
@@ -221,15 +222,15 @@ Proof.
 Qed.
 
 Theorem model_meets_spec_map q :
-  plain_specs (q_funcs q) -> spec_ok (CMap q false) (run (CMap q false)) = true.
+  spec_ok (CMap q false) (run (CMap q false)) = true.
 Proof.
-  intros Hp. cbn [spec_ok run].
+  cbn [spec_ok run].
   destruct (map_model (fun _ => []) q) as [[r tr] calls] eqn:M.
   destruct (wfm_b q) eqn:W; cbn [negb].
   - destruct r as [[]|e]; reflexivity.
   - destruct r as [[]|e].
     + exfalso. destruct (accepted_after_all_checks _ q tr calls M) as [Hok _].
-      rewrite (wfm_b_complete q (validate_map_wellformed q Hok Hp)) in W. discriminate.
+      rewrite (wfm_b_complete q (validate_map_wellformed q Hok)) in W. discriminate.
     + destruct (rejected_runs_nothing _ q e tr calls M) as [-> [Hcf _]].
       cbn [length]. rewrite str_eqb_refl. cbn [andb]. change (Z.of_nat 0 =? 0)%Z with true. cbn [andb].
       destruct (q_cleanup q) eqn:Ec; [reflexivity|]. rewrite (Hcf eq_refl). reflexivity.
@@ -238,3 +239,43 @@ Qed.
 (* ---------- the ordering case and the table case ---------- *)
 Theorem model_meets_spec_order cleanup : spec_ok (CPrepOrder cleanup) (run (CPrepOrder cleanup)) = true.
 Proof. destruct cleanup; vm_compute; reflexivity. Qed.
+
+(* ---------- pipeline(output, **kwargs): missing / surplus keywords are rejected before anything runs ---------- *)
+From Verif Require Model.Pipe Proofs.PipeFacts.
+
+Lemma missingb_false_sufficient p kw o : Pipe.missingb p kw o = false -> Pipe.sufficient p kw o.
+Proof.
+  unfold Pipe.missingb, Pipe.sufficient. intros H f cur Hf Hc Hs.
+  assert (existsb (fun f0 => existsb (fun c => match Pipe.source_of p kw f0 c with Pipe.SMissing => true | _ => false end)
+                                    (Pipe.pnames f0)) (Pipe.needed_top p kw o) = true); [|congruence].
+  apply existsb_exists. exists f. split; [assumption|]. apply existsb_exists. exists cur. split; [assumption|].
+  now rewrite Hs.
+Qed.
+
+Theorem model_meets_spec_call p o kw :
+  spec_ok (CCall p o kw false) (run (CCall p o kw false)) = true.
+Proof.
+  cbn [spec_ok run]. unfold call_in_scope.
+  destruct (Pipe.wf_pipelineb p) eqn:Hwf; cbn [andb negb]; [|reflexivity].
+  destruct (Pipe.is_output p o) eqn:Ho; cbn [andb negb]; [|reflexivity].
+  destruct (Pipe.ahas kw o) eqn:Hk; cbn [andb negb]; [reflexivity|].
+  unfold Pipe.run_checked, Pipe.run_precheck.
+  assert (Hn : Pipe.is_node p o = true) by (unfold Pipe.is_node; now rewrite Ho).
+  rewrite Hn, Hk, Ho. cbn [negb orb].
+  unfold call_surplus. fold (Pipe.surplusb p kw o).
+  destruct (Pipe.missingb p kw o) eqn:Hm.
+  - destruct (call_missing p o kw || Pipe.surplusb p kw o); reflexivity.
+  - destruct (Pipe.surplusb p kw o) eqn:Hs.
+    + rewrite orb_true_r. reflexivity.
+    + rewrite orb_false_r.
+      assert (Hc : call_missing p o kw = false).
+      { unfold call_missing.
+        destruct (PipeFacts.eval_ok_of_sufficient Pipe.Sym.body Pipe.Sym.pick p kw o Hwf) as [v Hv];
+          [intros f a; eexists; reflexivity|exact Ho|now apply missingb_false_sufficient|].
+        now rewrite Hv. }
+      rewrite Hc.
+      destruct (Pipe.run Pipe.Sym.body Pipe.Sym.pick p o kw false) as [[x|e] lg]; reflexivity.
+Qed.
+
+Theorem model_meets_spec_run_order : spec_ok CRunOrder (run CRunOrder) = true.
+Proof. vm_compute. reflexivity. Qed.
